@@ -22,16 +22,15 @@ import numpy as np
 from . import c06_lib as L
 from .common import plist, frac, VERIF, LEAN
 
-THEOREMS_FULL = [
+THEOREMS = [
     'Pyiga.Props.C06.at_sound', 'Pyiga.Props.C06.literal_sound', 'Pyiga.Props.C06.transpose_sound',
     'Pyiga.Props.C06.fold_constants_sound', 'Pyiga.Props.C06.dx_sound',
     'Pyiga.Props.C06.key_sound', 'Pyiga.Props.C06.cse_sound', 'Pyiga.Props.C06.inline_sound',
     'Pyiga.Props.C06.vec_subst_sound',
     'Pyiga.Props.C06.schedule_sound', 'Pyiga.Props.C06.defBeforeUse_sound', 'Pyiga.Props.C06.slp_perm_sound',
-    'Pyiga.Props.C06.chain_rule_first_order',
+    'Pyiga.Props.C06.chain_rule_first_order', 'Pyiga.Props.C06.chain_rule_second_order',
 ]
-MODULES = ['Pyiga.Model.VForm', 'Pyiga.Model.SLP', 'Pyiga.Props.C06']
-THEOREMS = []
+MODULES = ['Pyiga.Model.VForm', 'Pyiga.Model.SLP', 'Pyiga.Proofs.VForm', 'Pyiga.Proofs.VFormAlg', 'Pyiga.Proofs.VFormKey', 'Pyiga.Proofs.SLP', 'Pyiga.Props.C06']
 
 
 # ----------------------------------------------------------------------------- helpers
@@ -706,8 +705,8 @@ def run(ctx):
     if key_table is None:
         key_table = {}
     table_tok = key_table_tokens({k: v for k, v in key_table.items()})
-    nforms = int(os.environ.get('C06_NFORMS', 0)) or (900 if ctx.tier == 'quick' else 12000)
-    nsynth = 4000 if ctx.tier == 'quick' else 40000
+    nforms = int(os.environ.get('C06_NFORMS', 0)) or (500 if ctx.tier == 'quick' else 12000)
+    nsynth = 3200 if ctx.tier == 'quick' else 40000
     seeds = [int(s) for s in ctx.rng.integers(0, 2 ** 31, size=nforms)]
     req, exp, meta = [], [], []
 
